@@ -38,6 +38,10 @@ py_strip = z3.Function('py_strip', S, S)
 UNBOUND = None  # set by interp import below
 
 
+seq_elems = z3.Function('seq_elems', z3.SeqSort(z3.StringSort()), pv.PVSetS)
+seq_elems_pv = z3.Function('seq_elems_pv', pv.PVSeq, pv.PVSetS)
+
+
 def _unbound():
     from .interp import UNBOUND as U
     return U
@@ -225,6 +229,7 @@ def getitem(it, base, idx, line=None):
             v = PV.dvals(t)[pv.kenc(idx)]
             if not ctx.branch(v != pv.PAbsent, 'haskey@%s' % line):
                 it.raise_py('KeyError', 'key', line)
+            instantiate_map_at(ctx, pv.ssimp(PV.dvals(t)), pv.kenc(idx))
             return taint(lower(v), base)
         it.raise_py('TypeError', 'object is not subscriptable', line)
     if isinstance(base, VObj):
@@ -320,11 +325,44 @@ def dict_load(it, d, k, line=None):
     if not it.spec():
         if not ctx.branch(v != pv.PAbsent, 'haskey@%s' % line):
             it.raise_py('KeyError', 'key', line)
+        instantiate_map_at(ctx, d.arr, pv.kenc(k))
     r = lower(v)
     if isinstance(r, SAny) and not it.spec():
         r.origin = (d, k)
         r.shared_from = d
     return r
+
+
+def _mentions_select(t, arr, depth=0):
+    if z3.is_app(t):
+        if t.decl().kind() == z3.Z3_OP_SELECT and t.arg(0).eq(arr) and z3.is_var(t.arg(1)):
+            return True
+        return any(_mentions_select(c, arr, depth + 1) for c in t.children())
+    return False
+
+
+def instantiate_map_at(ctx, arr, key):
+    """Facts of the form  forall k. ... arr[k] ...  (preconditions, invariants over a symbolically indexed dict) are
+    instantiated at the key the code is about to read, so that path pruning - which ignores quantified facts - knows
+    the shape of the entry.  Sound: an instance of an assumed universal fact."""
+    done = ctx.ghost.setdefault('__map_inst__', set())
+    new = []
+    for h in list(ctx.pc):
+        if z3.is_quantifier(h) and h.is_forall() and h.num_vars() == 1 and h.var_sort(0) == z3.StringSort():
+            tag = (h.get_id(), key.get_id())
+            if tag in done:
+                continue
+            if _mentions_select(pv.ssimp(h.body()) if False else h.body(), arr):
+                done.add(tag)
+                new.append(z3.substitute_vars(h.body(), key))
+    for f in new:
+        # guard => consequent with the guard already on the path: assume the consequent itself, so that universal
+        # facts nested in it become facts of their own (and can be instantiated at the next level)
+        if z3.is_implies(f):
+            g = pv.ssimp(f.arg(0))
+            if z3.is_true(g) or any(h.eq(g) or h.eq(f.arg(0)) for h in ctx.pc) or not ctx.feasible(z3.Not(g)):
+                f = f.arg(1)
+        ctx.assume(f)
 
 
 def dict_store(it, d, k, v):
@@ -879,6 +917,25 @@ def call_method(it, base, name, args, kwargs, line=None):
                 it.raise_py('AttributeError', name, line)
             add = z3.Unit(lift(args[0])) if name == 'append' else it.seq_term(args[0], line)
             dict_store(it, d, k, SAny(PV.PList(z3.Concat(PV.litems(t), add))))
+            return None
+        if name == 'remove' and getattr(base, 'origin', None) is not None:
+            # list stored (by value) in a symbolic dict: remove the first occurrence, write the shorter list back.
+            # The result is characterised by: one element shorter, every element is an element of the old list
+            # (which occurrence goes is not modelled: over-approximation).
+            d, k = base.origin
+            if not ctx.branch(PV.is_PList(t), 'islist@%s' % line):
+                it.raise_py('AttributeError', name, line)
+            old = PV.litems(t)
+            if not ctx.branch(z3.Contains(old, z3.Unit(lift(args[0]))), 'list.remove@%s' % line):
+                it.raise_py('ValueError', 'list.remove(x): x not in list', line)
+            new = ctx.fresh(pv.PVSeq, 'removed')
+            qi = z3.Const('q.ri.6', z3.IntSort())
+            qj = z3.Const('q.rj.6', z3.IntSort())
+            ctx.assume(z3.Length(new) == z3.Length(old) - 1)
+            ctx.assume(z3.ForAll([qi], z3.Implies(z3.And(qi >= 0, qi < z3.Length(new)),
+                                                  z3.Exists([qj], z3.And(qj >= 0, qj < z3.Length(old), new[qi] == old[qj])))))
+            ctx.note('list.remove on a list held in a symbolic dict: which occurrence is removed is not modelled')
+            dict_store(it, d, k, SAny(PV.PList(new)))
             return None
         if name in STR_METHODS and name not in LIST_METHODS and name not in DICT_METHODS:
             if ctx.branch(PV.is_PStr(t), 'isstr@%s' % line):
@@ -1622,12 +1679,33 @@ def b_sorted(it, args, kwargs):
             except TypeError:
                 it.raise_py('TypeError', 'unorderable types')
         return symbolic_sort(it, [(x, x) for x in items])
-    if isinstance(v, VKeys):
-        raise Unsupported('sorted() over the keys of a symbolic mapping')
+    if isinstance(v, (VKeys, VDict)) or (isinstance(v, VSet) and v.symbolic):
+        if key is not None or kwargs.get('reverse'):
+            raise Unsupported('sorted(key=) over the keys of a symbolic mapping')
+        return sorted_members(it, v)
     seq = it.seq_term(v)
     it.ctx.note('sorted() over a sequence of symbolic length is modelled as the sequence itself (some permutation): '
                 'obligations proved about a loop over it must not depend on the visiting order (assumption A-sorted)')
     return VList(seq=seq)
+
+
+def sorted_members(it, v):
+    """sorted() over the keys of a symbolically indexed dict / the elements of a symbolic set (strings, assumption
+    A-keys): the strictly ascending sequence of exactly the members - a function of the member set alone, whatever
+    order iteration would have produced."""
+    ctx = it.ctx
+    is_set = isinstance(v, VSet)
+    arr = v.to_arr() if isinstance(v, (VDict, VSet)) else v.arr
+    r = ctx.fresh(z3.SeqSort(z3.StringSort()), 'sorted')
+    mem = (lambda k: arr[k]) if is_set else (lambda k: arr[k] != pv.PAbsent)
+    i = z3.Const('q.si.5', z3.IntSort())
+    j = z3.Const('q.sj.5', z3.IntSort())
+    k = z3.Const('q.sk.5', z3.StringSort())
+    ctx.assume(z3.ForAll([i], z3.Implies(z3.And(i >= 0, i < z3.Length(r)), mem(r[i]))))
+    ctx.assume(z3.ForAll([k], z3.Implies(mem(k), z3.Exists([j], z3.And(j >= 0, j < z3.Length(r), r[j] == k)))))
+    ctx.assume(z3.ForAll([i], z3.Implies(z3.And(i >= 0, i + 1 < z3.Length(r)), r[i] < r[i + 1])))
+    ctx.assume(z3.ForAll([k], seq_elems(r)[k] == mem(k)))
+    return VList(seq=r, elem='str')
 
 
 sort_perm = z3.Function('sort_perm', PVSeq, z3.IntSort(), z3.IntSort())     # position in the input of the j-th output
@@ -1872,6 +1950,8 @@ def _quant_body(it, e, env, universal, args, lam, names, cenv, consts, guard, qd
     if len(args) == 2:
         coll = it.eval(args[0], env)
         items = concrete_items(it, coll)
+        if items is not None and len(names) == 2 and isinstance(coll, VDict) and not coll.symbolic:
+            items = [(k_, coll.vals[k_]) for k_ in coll.keys]       # (key, value) quantification over a concrete dict
         if items is not None:
             terms = []
             for x in items:
@@ -2128,9 +2208,6 @@ def sp_seq(it, args, kwargs):
 def sp_concat(it, args, kwargs):
     return VSeqIter(z3.Concat(*[it.seq_term(a) for a in args]))
 
-
-seq_elems = z3.Function('seq_elems', z3.SeqSort(z3.StringSort()), pv.PVSetS)
-seq_elems_pv = z3.Function('seq_elems_pv', pv.PVSeq, pv.PVSetS)
 
 
 def members_of(ctx, seq):
